@@ -68,7 +68,7 @@ def units(tier: str) -> List[Any]:
 
 def build_cfg(unit):
     tree, mode, x, mout = unit
-    cfg, nodes, events = F.universal_config(tree)
+    cfg, nodes, events = F.universal_config(tree, reenter_all=False)
     el = eligible(nodes)
     decorated = el if mode == "all" else [nodes[x]]
     for n in nodes:
